@@ -11,6 +11,8 @@ def node_tok(i, mode="tun-router", pt=300, ka="-", st=300, claims=None, key=1, t
 
 def emissions(tok):
     """'2:I1.abcd,3:D45' -> [(2,'I1.abcd'),(3,'D45')]"""
+    if tok.startswith("zc~"):      # harness marker of a zero-completed truncation (see model_line)
+        tok = tok[3:]
     if tok in ("-", "nodg", "") or tok.startswith(("w", "peers=", "panic", "hkerr")) and not tok.startswith("hkerr,"):
         return []
     if tok.startswith("hkerr,"):
@@ -35,6 +37,12 @@ def model_line(line, impl_out):
     for o, r in zip(ops, outs):
         p = o.split(".")
         pairs = []     # (node, dst, salt)
+        if p[0] == "U" and r.startswith("zc~"):
+            # the real run says: this truncation removed only zero bytes of a genuine handshake datagram, so the handshake
+            # parser saw the complete message (finding F11): for the model that is the verbatim injection of datagram k
+            r = r[3:]
+            o = "J.%s.%s.%s.zc" % (p[1], p[2], p[3])     # the trailing field makes the model side echo the "zc~" marker
+            p = o.split(".")
         if p[0] == "A":
             m = re.match(r"a\d+\[(.*)\]$", r)
             inner = m.group(1).split("|") if m and m.group(1) else []
